@@ -2,6 +2,8 @@ package main
 
 import (
 	"fmt"
+	"regexp"
+	"strconv"
 	"go/ast"
 	"go/token"
 	"go/types"
@@ -98,6 +100,10 @@ type FuncVerifier struct {
 	bound        map[types.Object]Term
 	seenStack    []types.Object
 	riStack      []types.Object
+	curCall      *ast.CallExpr
+	pick         func(ast.Expr) ast.Expr
+	clausePick   func(ast.Expr) ast.Expr
+	heapSorts    map[string]*Sort // heap name -> reference sort
 	pureUsed, inlined, trustedUsed, contractUsed map[string]bool
 	allocBudget  func(st *State) Term
 }
@@ -130,12 +136,78 @@ func (fv *FuncVerifier) typeOf(e ast.Expr) types.Type {
 }
 
 func (fv *FuncVerifier) subst(t types.Type) types.Type {
+	if t == nil {
+		return nil
+	}
+	has := false
+	for _, fr := range fv.frames {
+		if len(fr.tsubst) > 0 {
+			has = true
+		}
+	}
+	if !has {
+		return t
+	}
+	return fv.deepSubst(t, 0)
+}
+
+func (fv *FuncVerifier) lookupTParam(tp *types.TypeParam) (types.Type, bool) {
 	for i := len(fv.frames) - 1; i >= 0; i-- {
 		if m := fv.frames[i].tsubst; m != nil {
-			if tp, ok := types.Unalias(t).(*types.TypeParam); ok {
-				if r, ok := m[tp]; ok {
-					return r
-				}
+			if r, ok := m[tp]; ok {
+				return r, true
+			}
+		}
+	}
+	return nil, false
+}
+
+func (fv *FuncVerifier) deepSubst(t types.Type, depth int) types.Type {
+	if depth > 8 {
+		return t
+	}
+	switch x := types.Unalias(t).(type) {
+	case *types.TypeParam:
+		if r, ok := fv.lookupTParam(x); ok && r != t {
+			return fv.deepSubst(r, depth+1)
+		}
+		return t
+	case *types.Pointer:
+		e := fv.deepSubst(x.Elem(), depth)
+		if e != x.Elem() {
+			return types.NewPointer(e)
+		}
+	case *types.Slice:
+		e := fv.deepSubst(x.Elem(), depth)
+		if e != x.Elem() {
+			return types.NewSlice(e)
+		}
+	case *types.Array:
+		e := fv.deepSubst(x.Elem(), depth)
+		if e != x.Elem() {
+			return types.NewArray(e, x.Len())
+		}
+	case *types.Map:
+		k, e := fv.deepSubst(x.Key(), depth), fv.deepSubst(x.Elem(), depth)
+		if k != x.Key() || e != x.Elem() {
+			return types.NewMap(k, e)
+		}
+	case *types.Named:
+		ta := x.TypeArgs()
+		if ta == nil || ta.Len() == 0 {
+			return t
+		}
+		changed := false
+		args := make([]types.Type, ta.Len())
+		for i := 0; i < ta.Len(); i++ {
+			args[i] = fv.deepSubst(ta.At(i), depth)
+			if args[i] != ta.At(i) {
+				changed = true
+			}
+		}
+		if changed {
+			if inst, err := types.Instantiate(nil, x.Origin(), args, false); err == nil {
+				return inst
 			}
 		}
 	}
@@ -163,6 +235,9 @@ func (fv *FuncVerifier) mustSort(t types.Type, what string) *Sort {
 // heap returns the current value of a heap, creating the initial heap on demand.
 func (fv *FuncVerifier) heap(st *State, ref *Sort) Term {
 	name := heapName(ref)
+	if fv.heapSorts != nil {
+		fv.heapSorts[name] = ref
+	}
 	if h, ok := st.heaps[name]; ok {
 		return h
 	}
@@ -987,8 +1062,15 @@ func (fv *FuncVerifier) cutLoop(cfg *loopCfg, st *State) *State {
 		head.vars[obj] = nv
 		fv.assumeTyped(head, nv, obj.Type())
 	}
+	var touched []string
+	var modRefs footprint
 	if ms.heaps {
-		fv.havocAllHeaps(head)
+		touched = fv.discoverTouched(cfg, head)
+		modRefs = fv.havocTouched(head, st, touched, cfg, pos)
+	}
+	headHeaps := map[string]Term{}
+	for k, v := range head.heaps {
+		headHeaps[k] = v
 	}
 	assumeInvs(head)
 	base := len(head.pc)
@@ -1017,6 +1099,7 @@ func (fv *FuncVerifier) cutLoop(cfg *loopCfg, st *State) *State {
 		cont = cfg.post(cont)
 	}
 	if cont != nil {
+		fv.checkLoopFrame(cont, headHeaps, touched, modRefs, cfg)
 		invs(cont, "inv-keep")
 		if ls != nil && ls.Decreases != nil {
 			v1 := fv.evalClauseHere(ls.Decreases, cont, pos)
@@ -1031,6 +1114,137 @@ func (fv *FuncVerifier) cutLoop(cfg *loopCfg, st *State) *State {
 		exit.assume(not(fv.def("lc", cfg.cond(exit))))
 	}
 	return fv.mergeStates(append([]*State{exit}, lf.breaks...), base)
+}
+
+// discoverTouched runs the loop body once on a scratch state to find which heaps
+// an iteration can write; obligations and counters of the dry run are discarded.
+func (fv *FuncVerifier) discoverTouched(cfg *loopCfg, head *State) []string {
+	saveObls, saveRet := len(fv.obls), fv.retOrdinal
+	saveCnt := map[string]int{}
+	for k, v := range fv.counters {
+		saveCnt[k] = v
+	}
+	fr := fv.frame()
+	saveRets, saveDefers := len(fr.rets), len(fr.defers)
+	saveNotes := map[string]bool{}
+	for k := range fv.u.notes {
+		saveNotes[k] = true
+	}
+	defer func() {
+		fv.u.notes = saveNotes
+		fv.obls = fv.obls[:saveObls]
+		fv.retOrdinal = saveRet
+		fv.counters = saveCnt
+		fr.rets = fr.rets[:saveRets]
+		fr.defers = fr.defers[:saveDefers]
+	}()
+	dry := head.clone()
+	fv.havocAllHeaps(dry)
+	baseHeaps := map[string]Term{}
+	for k, v := range dry.heaps {
+		baseHeaps[k] = v
+	}
+	it := dry.clone()
+	if cfg.condSetup != nil {
+		it.assume(cfg.condSetup(it))
+	} else {
+		it.assume(cfg.cond(it))
+	}
+	if cfg.pre != nil {
+		cfg.pre(it)
+	}
+	lf := &loopFrame{label: cfg.label}
+	fr.loops = append(fr.loops, lf)
+	end := fv.execBlock(cfg.body.List, it)
+	fr.loops = fr.loops[:len(fr.loops)-1]
+	states := append([]*State{end}, lf.continues...)
+	set := map[string]bool{}
+	for _, s := range states {
+		if s == nil {
+			continue
+		}
+		if cfg.post != nil {
+			s = cfg.post(s.clone())
+			if s == nil {
+				continue
+			}
+		}
+		for k, v := range s.heaps {
+			b, ok := baseHeaps[k]
+			if !ok {
+				b, ok = fv.initHeaps[k]
+			}
+			if !ok || b.S != v.S {
+				set[k] = true
+			}
+		}
+	}
+	return keys(set)
+}
+
+// havocTouched replaces the heaps an iteration can write by fresh ones at the loop
+// head. With a `loop N modifies` clause objects that existed before the loop and are
+// not listed keep their value (that frame is re-checked at the end of each iteration).
+func (fv *FuncVerifier) havocTouched(head, pre *State, touched []string, cfg *loopCfg, pos token.Pos) footprint {
+	fp := footprint{}
+	hasMod := cfg.ls != nil && cfg.ls.HasMod
+	if hasMod {
+		for _, c := range cfg.ls.Modifies {
+			fp.add(fv.evalLoopModTarget(c, pre, pos))
+		}
+	}
+	for _, k := range touched {
+		if strings.HasPrefix(k, "alloc:") {
+			cur, ok := pre.heaps[k]
+			if !ok {
+				cur, ok = fv.initHeaps[k]
+			}
+			na := fv.u.freshConst("alloc", &Sort{Name: "(Array Int Bool)", Kind: KSMTArray, Elem: sortBool})
+			if ok {
+				head.assume(mk(sortBool, "(forall ((x!f Int)) (! (=> (select %s x!f) (select %s x!f)) :pattern ((select %s x!f))))", cur.S, na.S, na.S))
+			}
+			head.heaps[k] = na
+			continue
+		}
+		ref := fv.heapSorts[k]
+		if ref == nil {
+			reject("internal: unknown heap %s", k)
+		}
+		cur := fv.heap(pre, ref)
+		nh := fv.u.freshConst(k, cur.Sort)
+		if hasMod {
+			fv.assumeFrame(head, fp[k], ref, cur, nh, fv.allocSet(pre, ref).S)
+		} else {
+			fv.u.note("loop writes heap %s without a `loop modifies` clause: that heap is fully havocked at the loop head", k)
+		}
+		head.heaps[k] = nh
+	}
+	return fp
+}
+
+func (fv *FuncVerifier) checkLoopFrame(cont *State, headHeaps map[string]Term, touched []string, fp footprint, cfg *loopCfg) {
+	if cfg.ls == nil || !cfg.ls.HasMod {
+		return
+	}
+	for _, k := range touched {
+		if strings.HasPrefix(k, "alloc:") {
+			continue
+		}
+		hh, ok := headHeaps[k]
+		cur, ok2 := cont.heaps[k]
+		if !ok || !ok2 || hh.S == cur.S {
+			continue
+		}
+		ref := fv.heapSorts[k]
+		alloc := ""
+		if al, ok := headHeaps["alloc:"+k]; ok {
+			alloc = al.S
+		} else if al, ok := fv.initHeaps["alloc:"+k]; ok {
+			alloc = al.S
+		}
+		goal := fv.frameGoal(fp[k], ref, hh, cur, alloc)
+		fv.oblige(cont, "inv-keep", fmt.Sprintf("L%d:frame:%s", cfg.ord, k), goal, cfg.loop.Pos(), "objects/fields not listed in `loop modifies` are unchanged by an iteration")
+	}
 }
 
 func (fv *FuncVerifier) havocAllHeaps(st *State) {
@@ -1109,6 +1323,10 @@ func (fv *FuncVerifier) execRangeLabel(s *ast.RangeStmt, st *State, label string
 		if n.Sort.Kind == KBV {
 			reject("range in bv mode at %s", fv.pos(s.Pos()))
 		}
+		// constant trip count (e.g. a packed variadic argument list): unroll
+		if cnt, ok := constLen(coll, isInt); ok && cnt <= 8 && ls == nil {
+			return fv.unrollRange(s, st, coll, cnt, kObj, vObj, label)
+		}
 		iv := types.NewVar(s.Pos(), nil, "ri", types.Typ[types.Int])
 		st.vars[iv] = intT(0)
 		idx := func(st *State) Term { return st.vars[iv] }
@@ -1149,4 +1367,41 @@ func (fv *FuncVerifier) execRangeLabel(s *ast.RangeStmt, st *State, label string
 	}
 	reject("range over %s at %s", xt, fv.pos(s.Pos()))
 	return nil
+}
+
+var constLenRe = regexp.MustCompile(`^\(mk_Sl_\S+ .* (\d+)\)$`)
+
+func constLen(coll Term, isInt bool) (int, bool) {
+	if isInt || coll.Sort == nil || coll.Sort.Kind != KSlice {
+		return 0, false
+	}
+	m := constLenRe.FindStringSubmatch(coll.S)
+	if m == nil {
+		return 0, false
+	}
+	n, err := strconv.Atoi(m[1])
+	return n, err == nil
+}
+
+func (fv *FuncVerifier) unrollRange(s *ast.RangeStmt, st *State, coll Term, n int, kObj, vObj types.Object, label string) *State {
+	fr := fv.frame()
+	base := len(st.pc)
+	var exits []*State
+	cur := st
+	for i := 0; i < n && cur != nil; i++ {
+		if kObj != nil {
+			cur.vars[kObj] = intT(int64(i))
+		}
+		if vObj != nil {
+			cur.vars[vObj] = fv.def(vObj.Name(), slAt(coll, intT(int64(i))))
+			fv.assumeTyped(cur, cur.vars[vObj], vObj.Type())
+		}
+		lf := &loopFrame{label: label}
+		fr.loops = append(fr.loops, lf)
+		end := fv.execBlock(s.Body.List, cur)
+		fr.loops = fr.loops[:len(fr.loops)-1]
+		exits = append(exits, lf.breaks...)
+		cur = fv.mergeStates(append([]*State{end}, lf.continues...), base)
+	}
+	return fv.mergeStates(append(exits, cur), base)
 }
